@@ -595,6 +595,24 @@ fn gen_simplify_path(r: &mut Rng) -> BezPath {
     let nsub = 1 + r.below(3);
     let size = *r.pick(&[1.0, 10.0, 100.0]);
     for _ in 0..nsub {
+        // a closed sub-path whose elements all have zero length: no output at all, not even a ClosePath
+        // (simplify.rs ClosePath arm, `if !state.needs_moveto`); alone, first, in the middle or last
+        if r.chance(1, 5) {
+            let p = Point::new(r.grid(8, 2.0) * size, r.grid(8, 2.0) * size);
+            bp.move_to(p);
+            for _ in 0..r.below(3) {
+                match r.below(3) {
+                    0 => bp.line_to(p),
+                    1 => bp.quad_to(p, p),
+                    _ => bp.curve_to(p, p, p),
+                }
+            }
+            bp.close_path();
+            if r.chance(1, 4) {
+                bp.close_path(); // a second ClosePath in a row is dropped as well
+            }
+            continue;
+        }
         let nrun = 1 + r.below(3);
         let mut first = true;
         let mut start = Point::ZERO;
@@ -721,7 +739,8 @@ fn corr_simplify(r: &mut Rng, thorough: bool, o: &mut Out) {
     for _ in 0..n {
         let bp = gen_simplify_path(r);
         let mut els: Vec<PathEl> = bp.elements().to_vec();
-        let headless = r.chance(1, 25);
+        // (only in front of a drawing element: a path that starts with ClosePath trips BezPath's debug assertion instead)
+        let headless = r.chance(1, 25) && matches!(els.get(1), Some(PathEl::LineTo(_) | PathEl::QuadTo(..) | PathEl::CurveTo(..)));
         if headless {
             els.remove(0); // no MoveTo: `last_pt.unwrap()` panics at the first drawing element
         }
@@ -781,7 +800,10 @@ fn corr_simplify(r: &mut Rng, thorough: bool, o: &mut Out) {
         obs.extend(enc_els(real.elements()));
         let nsub = els.iter().filter(|e| matches!(e, PathEl::MoveTo(_))).count();
         let after_close = els.windows(2).any(|w| matches!(w[0], PathEl::ClosePath) && !matches!(w[1], PathEl::MoveTo(_)));
-        let tag = format!("{}sub{}{}{}", nsub.min(3), if nq == 0 { ":passthrough" } else { ":fitted" }, if level { ":opt" } else { ":subdiv" }, if after_close { ":draw-after-close" } else { "" });
+        // the repaired branch: fewer ClosePath out than in
+        let nclose = |e: &[PathEl]| e.iter().filter(|x| matches!(x, PathEl::ClosePath)).count();
+        let dropped_close = nclose(real.elements()) < nclose(&els);
+        let tag = format!("{}sub{}{}{}", nsub.min(4), if nq == 0 { ":passthrough" } else { ":fitted" }, if level { ":opt" } else { ":subdiv" }, if after_close { ":draw-after-close" } else if dropped_close { ":close-dropped" } else { "" });
         o.case(7, "simplify-structure", args, obs, els.len() > 3, &tag);
     }
     if fitter_panics > 0 {
@@ -1560,7 +1582,16 @@ fn g_simplify(r: &mut Rng) -> Vec<f64> {
     let size = 10f64.powf(r.uniform(0.0, 3.0));
     let mut bp = BezPath::new();
     let nsub = 1 + r.below(3);
-    for _ in 0..nsub {
+    for k in 0..nsub {
+        // now and then a closed sub-path of zero-length elements next to the real ones: it must vanish
+        // entirely (no stray MoveTo or ClosePath), leaving the structure of the others intact
+        if nsub > 1 && k > 0 && r.chance(1, 8) {
+            let p = Point::new(r.uniform(-size, size), r.uniform(-size, size));
+            bp.move_to(p);
+            bp.line_to(p);
+            bp.curve_to(p, p, p);
+            bp.close_path();
+        }
         let nrun = 1 + r.below(4);
         let mut cur = Point::new(r.uniform(-size, size), r.uniform(-size, size));
         let start = cur;
@@ -1659,10 +1690,12 @@ fn subpaths(els: &[PathEl]) -> Vec<(Point, bool, Vec<PathEl>)> {
     out
 }
 
+/// the sub-path's segments as cubics, without the zero-length ones (all control points equal),
+/// which simplify_bezpath skips and which draw nothing
 fn sub_cubics(start: Point, els: &[PathEl]) -> Vec<CubicBez> {
     let mut v = vec![PathEl::MoveTo(start)];
     v.extend_from_slice(els);
-    segs_as_cubics(&v)
+    segs_as_cubics(&v).into_iter().filter(|c| !(c.p0 == c.p1 && c.p0 == c.p2 && c.p0 == c.p3)).collect()
 }
 
 fn law_simplify(v: &[f64]) -> Option<(String, String)> {
